@@ -92,8 +92,8 @@ int main(void)
     return {
         'targets': targets, 'vcs': vcs, 'functions': fns,
         'decided': ['backtrack / LeMarechal / Fletcher(+zoom): success => advertised predicates were evaluated true on the current trial point with the returned step, and the state is the valid evaluation at x0+t*d; loops terminate (variant max_iterations - i)',
-                    'IEEE semantics, every double t0 (NaN, +-inf included): the first trial step of lsearchk_t::get is finite and in [stpmin, 1] (std::clamp mapped exactly: NaN passes through it); t *= 0.3 keeps 0 <= t <= 1, t *= 3 keeps t >= 0 and a positive step positive; the step handed to do_get is finite; every do_get and get: success => the returned step is finite, whatever the interpolation kernels return (a NaN trial step gives an invalid state, which is never accepted)',
-                    'REFUTED on the unchanged library 6f4bbf5 (genuine, natively replayed): the step handed to do_get can be 0 (t *= 0.3 underflows when every positive trial point is invalid) and backtracking then returns {true, 0}: lsearchk_get_ieee/lsearchk_do_get_ieee.precondition.5',
+                    'IEEE semantics, every double t0 (NaN, +-inf included): the first trial step of lsearchk_t::get is finite and in [stpmin, 1] (std::clamp mapped exactly: NaN passes through it); t *= 0.3 keeps 0 <= t <= 1, t *= 3 keeps t >= 0 and a positive step positive; the step handed to do_get is finite and > 0; every do_get and get: success => the returned step is finite, whatever the interpolation kernels return (a NaN trial step gives an invalid state, which is never accepted)',
+                    'the step handed to do_get is strictly positive in IEEE semantics (t *= 0.3 can underflow to 0: lsearchk_t::get refuses that since e2d1052; before, backtracking could return {true, 0}, see known_findings.txt)',
                     'acceptance predicates has_armijo / has_wolfe / has_strong_wolfe / has_approx_armijo / has_approx_wolfe / has_descent / dg equal the textbook formulas of the property over the reals (dot products opaque); has_descent (real body, IEEE comparisons) refuses a NaN slope and is the guard of lsearchk_t::get',
                     'step sanity over the reals: lsearchk_t::get hands do_get a step > 0 (stpmin = 10 eps in (0,1], clamp, *0.3, *3); backtracking / LeMarechal / Fletcher / zoom: every std::clamp has lower <= upper and a lower bound > 0, the bracket invariants (0 <= L < t < R; 0 <= prev < curr = t; non-negative zoom bracket) are inductive, success => returned step > 0 and state evaluated at exactly that step',
                     'lsearch_step_t::interpolate returns a finite value or else the bisection point 0.5*(u.t+v.t) for every mode; bisection and the (t, f, g) constructor equal their definitions',
